@@ -63,7 +63,9 @@ func Run(cases []*Case, fast bool) ([]*Out, error) {
 	for _, c := range cases {
 		c.LoxText = c.G.Lox()
 		c.GoText = pgo.UserGo(c.G, pgo.Opts{OnBounds: c.OnBounds, NamedSlices: c.NamedSlices})
-		if _, err := b.Add(map[string]string{"g.lox": c.LoxText, "user.go": c.GoText}); err != nil {
+		files := c.G.LoxFiles()
+		files["user.go"] = c.GoText
+		if _, err := b.Add(files); err != nil {
 			return nil, &HarnessError{err.Error()}
 		}
 	}
